@@ -392,6 +392,7 @@ type RunOpts struct {
 	OnPipeline  func(p *codegen.Pipeline)
 	OnContext   func(lang string, c languages.Context)
 	OnSchemas   func(s ast.Schemas)
+	OnLanguages func(l languages.Languages)
 }
 
 // RunPipeline materialises nothing: cfgPath must already exist. It performs
@@ -464,6 +465,9 @@ func RunPipeline(cfgPath string, params map[string]string, opts RunOpts) (*Obser
 		if err != nil {
 			obs.ErrLoad = err.Error()
 			return obs, err
+		}
+		if opts.OnLanguages != nil {
+			opts.OnLanguages(langs)
 		}
 		// `cog inspect` handles one language per invocation; the harness
 		// walks them in sorted order (an order of its own choosing).
